@@ -296,9 +296,14 @@ type request struct {
 	Inp   map[string]interface{}   `json:"inp"`
 	Binds []interface{}            `json:"binds"`
 	Flags map[string]interface{}   `json:"flags"`
+	Bytes []interface{}            `json:"bytes"`
+	Mode  string                   `json:"mode"`
 }
 
 func runCase(rq *request) M {
+	if rq.Mode == "compile" {
+		return runCompileCase(rq)
+	}
 	ev := M{"id": rq.ID, "ev": "Eval", "fam": rq.Fam}
 	src := rq.Src
 	if src == "" && rq.Ast != nil {
